@@ -1,6 +1,7 @@
 import BiotiteModel.Proofs.C05
 import BiotiteModel.Proofs.C05Ext
 import BiotiteModel.Proofs.C05Float
+import BiotiteModel.Proofs.C05Ser
 import BiotiteModel.Gen.C05
 /-!
 # C05 — property theorems (BinaryCIF encodings are invertible)
@@ -439,6 +440,55 @@ theorem C05_gen_typecodes :
     ∀ t ∈ [DType.i8, .i16, .i32, .u8, .u16, .u32],
       Gen.C05.typeCodeToDtype.lookup (typeCodeName t) = some (dtypeString t) := by
   decide
+
+/-! ## Serialised encodings read back equal -/
+
+/-- `_camel_to_snake_case ∘ _snake_to_camel_case` is the identity on every well-formed snake-case parameter name
+(non-empty words of lower-case letters and digits, later words starting with a letter), of any length. -/
+theorem C05_param_names_roundtrip (ws : List (List Char)) (h : wordsOk ws = true) :
+    ∃ r, snakeToCamelW ws = some r ∧ camelToSnake r = joinUnderscore ws :=
+  camel_snake_words ws h
+
+/-- …and it is *not* for the shapes the predicate excludes (so the predicate is not decoration): a word starting with a
+digit, a leading underscore and a doubled underscore all read back under another name; the empty name is an `IndexError`. -/
+theorem C05_param_names_illformed :
+    (snakeToCamel "a_2b".toList).map camelToSnake = some "a2b".toList ∧
+    (snakeToCamel "_x".toList).map camelToSnake = some "x".toList ∧
+    (snakeToCamel "a__b".toList).map camelToSnake = some "a_b".toList ∧
+    snakeToCamel [] = none := by decide +kernel
+
+/-- The tables regenerated from `encoding.pyx`: every parameter name any encoding class declares is well-formed (hence
+reads back under its own name), the kind table and the class table are mutually inverse, every class has a kind, and
+`StringArrayEncoding.deserialize` reads only keys its `serialize` writes. -/
+theorem C05_gen_encoding_tables :
+    (∀ c ∈ Gen.C05.encodingParams, ∀ n ∈ c.2, wordsOk (splitUnderscore n.toList) = true ∧
+        joinUnderscore (splitUnderscore n.toList) = n.toList) ∧
+    (∀ ck ∈ Gen.C05.encodingKinds, Gen.C05.encodingClasses.lookup ck.2 = some ck.1) ∧
+    (∀ kc ∈ Gen.C05.encodingClasses, Gen.C05.encodingKinds.lookup kc.2 = some kc.1) ∧
+    Gen.C05.encodingParams.map (·.1) = Gen.C05.encodingKinds.map (·.1) ∧
+    (∀ k ∈ Gen.C05.stringArrayRead, k ∈ Gen.C05.stringArrayWritten) := by
+  decide +kernel
+
+/-- Hence every encoding object of every class in the source, with any parameter values, deserialises from what
+`serialize` wrote to the same class with the same values under the same names. -/
+theorem C05_serialized_encoding_roundtrip {V : Type} (c : String × List String) (hc : c ∈ Gen.C05.encodingParams)
+    (vals : List V) :
+    (serializeEnc Gen.C05.encodingKinds c.1 (c.2.zip vals)).bind (deserializeEnc Gen.C05.encodingClasses)
+      = some (c.1, c.2.zip vals) := by
+  have hnames : ∀ n ∈ c.2, (camelS n).map snakeS = some n := by
+    intro n hn
+    obtain ⟨hw, hj⟩ := C05_gen_encoding_tables.1 c hc n hn
+    obtain ⟨r, hr1, hr2⟩ := camel_snake_words _ hw
+    simp only [camelS, snakeToCamel, hr1, Option.map_some, snakeS, String.toList_ofList, hr2, hj, String.ofList_toList]
+  have hk : ∃ k, Gen.C05.encodingKinds.lookup c.1 = some k ∧ Gen.C05.encodingClasses.lookup k = some c.1 := by
+    have : ∀ c ∈ Gen.C05.encodingParams, ∃ k, Gen.C05.encodingKinds.lookup c.1 = some k ∧
+        Gen.C05.encodingClasses.lookup k = some c.1 := by decide +kernel
+    exact this c hc
+  obtain ⟨k, hk1, hk2⟩ := hk
+  exact ser_deser _ _ _ k _ hk1 hk2 (fun p hp => hnames p.1 (List.of_mem_zip hp).1)
+
+example : serializeEnc (V := Nat) Gen.C05.encodingKinds "RunLengthEncoding" [("src_size", 7), ("src_type", 3)]
+    = some ⟨"RunLength", [("srcSize", 7), ("srcType", 3)]⟩ := by decide +kernel
 
 /-! ## Non-vacuity (float / string / byte part) -/
 
